@@ -75,6 +75,7 @@ AtPointN(s, p) ==
       [] p = "server.beforeFastInvoke" -> Cardinality({k \in DOMAIN s.iv : s.iv[k].f = "fast"})
       [] p = "server.initWaitFailed"   -> Cardinality({k \in DOMAIN s.iv : s.iv[k].f \in {"aerr", "aerrR"}})
       [] p = "server.resetBeforeRelease" -> IF s.rdone > 0 THEN 1 ELSE 0
+      [] p = "server.beforeFinalRelease" -> Cardinality({k \in DOMAIN s.iv : s.iv[k].m = "sel" /\ s.iv[k].r = "sendok"})
       [] p = "invoke.beforeSetRenderer" -> IF s.pcV.pc = "v1" THEN 1 ELSE 0
       [] p = "core.newInternalAgent"   -> Cardinality({c \in DOMAIN s.calls : s.calls[c].api = "register" /\ s.calls[c].st = "issued"
                                                           /\ ~(s.calls[c].name \in Agents(s) /\ s.ag[s.calls[c].name].kind = "ext")})
@@ -348,6 +349,10 @@ Release(s) ==
 \* thereby dropped a reservation made in between; repaired by 462e73b
 WrapperRelease(s) == IF "reset-wrapper-releases" \in AsFound THEN Release(s) ELSE s
 
+\* Server.Invoke, success branch of its select: as found ("final-release", F-C10-6) it called Release once more after
+\* AwaitRelease had released the reservation, dropping a reservation made in between; repaired in /repo
+FinalRelease(s) == IF "final-release" \in AsFound THEN Release(s) ELSE s
+
 \* observable: a caller enters Server.Invoke
 CallerStartEn(s, c) == s.busy[c] = 0
 CallerStartDo(s, c, pl, big) ==
@@ -454,9 +459,10 @@ RelOnceWaitDo(s, k) == [s EXCEPT !.iv[k].r = "senderr", !.iv[k].relRes = "Invoke
 
 \* main receives from releaseSuccessChan / releaseErrChan
 MainGotResultEn(s, k) == s.iv[k].m = "sel" /\ s.iv[k].r \in {"sendok", "senderr"}
+                         /\ (s.iv[k].r = "sendok" => Free(s, "server.beforeFinalRelease"))
 MainGotResultDo(s, k) ==
     IF s.iv[k].r = "sendok"
-    THEN [Release(s) EXCEPT !.iv[k].m = "ret", !.iv[k].out = "", !.iv[k].r = "off"]
+    THEN [FinalRelease(s) EXCEPT !.iv[k].m = "ret", !.iv[k].out = "", !.iv[k].r = "off"]
     ELSE [s EXCEPT !.iv[k].m = "ret", !.iv[k].out = s.iv[k].relRes, !.iv[k].r = "off"]
 
 \* the timer fires: Reset("Timeout", 2000)
